@@ -11,6 +11,7 @@ R2 block_init maps every inconsistent restart count to size 0; block_iter_init r
 R3 width agreement (rules/widths.py): the file length, the index block offset/length and the
    cached data block offset are 64 bits wide and are never converted to fewer bits on the way
    to a comparison or a pointer computation.
+D  rests on: C17 C17.R2 (the checksum routine is handed (pointer, length) inside the mapping and must consume exactly that extent) - re-run here as <id>.D.<rule>.
 """
 import re
 from .common import *
@@ -246,6 +247,9 @@ def run(ctx, res):
     if not seen:
         res.bad("C19.R2", site(bii, "size<8"), "block_iter_init does not refuse blocks shorter than 8 bytes", bii.loc(bii.body))
 
+
+    # ---- properties this one rests on (re-run here, labelled <this>.D.<rule>) ------------------
+    depends(ctx, res, 'C17', ('C17.R2',), 'the checksum routine is handed (pointer, length) inside the mapping and must consume exactly that extent')
 
 def _short(a, b, M, S):
     s = (a + ("," + b if b else ""))
